@@ -159,6 +159,19 @@ def check_bytes(fa, res, ctx, buf, expect, mode, seen):
         if err is None:
             res.add(Violation(f"c03.{mode}.read", f"{mode}-returned-value",
                               f"{mode} encoding {buf[:80].hex()} returned {short(got)} instead of raising | {short(info, 300)}", dict(info, buf=buf, mode=mode)))
+    # the same through a buffered reader with a tiny buffer (a stream that offers peek(), with boundaries inside the items)
+    if len(buf) > 1:
+        res.evals += 1
+        br = io.BufferedReader(io.BytesIO(buf), buffer_size=3)
+        try:
+            got_b = fa.schemaless_reader(br, raw)
+            err_b = None
+        except Exception as e:
+            got_b, err_b = None, e
+        if mode == "valid" and (err_b is not None or not same(got_b, expect) or br.read() != b""):
+            res.add(Violation("c03.valid-layout.read", "valid-layout-buffered-stream", f"valid encoding {buf[:80].hex()} through a BufferedReader: {short(got_b)} / {type(err_b).__name__ if err_b else 'no error'}; expected {short(expect)} | {short(info, 300)}", dict(info, buf=buf, mode=mode)))
+        elif mode != "valid" and err_b is None:
+            res.add(Violation(f"c03.{mode}.read", f"{mode}-returned-value:buffered-stream", f"{mode} encoding {buf[:80].hex()} through a BufferedReader returned {short(got_b)} instead of raising | {short(info, 300)}", dict(info, buf=buf, mode=mode)))
     # skip path
     res.evals += 1
     wb = buf + binary.zigzag(KEEP) if mode != "prefix" else buf
@@ -314,6 +327,29 @@ def run_many_blocks(fa, res):
                         res.add(Violation("c03.valid-layout.skip", "valid-layout-skip-misaligned:many-blocks", f"after skipping a {kind} of {nblocks} one-item blocks ({form}) the next field read as {short(got)}", dict(info, mode="many-blocks")))
                 except Exception as e:
                     res.add(Violation("c03.valid-layout.skip", f"valid-layout-skip-raised:{type(e).__name__}:many-blocks", f"skipping a {kind} of {nblocks} one-item blocks ({form}) raised {type(e).__name__}: {str(e)[:100]}", dict(info, mode="many-blocks")))
+    # long collections of annotated items (a per-item conversion must not accumulate anything), in one block and in many
+    import datetime as _dt
+
+    for count in (450, 1200, 5000):
+        for per_block in (count, 1, 7):
+            raw = {"type": "array", "items": {"type": "int", "logicalType": "date"}}
+            body = bytearray()
+            i = 0
+            while i < count:
+                m = min(per_block, count - i)
+                body += binary.zigzag(m) + b"".join(binary.zigzag(j % 20000) for j in range(i, i + m))
+                i += m
+            body += b"\x00"
+            expect = [_dt.date(1970, 1, 1) + _dt.timedelta(days=j % 20000) for j in range(count)]
+            info = {"schema": raw, "datum": f"<{count} dates, {per_block} per block>", "blocks": count, "form": "logical"}
+            n_cases += 1
+            res.evals += 1
+            try:
+                got = fa.schemaless_reader(io.BytesIO(bytes(body)), raw)
+                if got != expect:
+                    res.add(Violation("c03.valid-layout.read", "valid-layout-wrong-value:many-logical-items", f"{count} dates ({per_block} per block) decoded differently", dict(info, mode="many-blocks")))
+            except Exception as e:
+                res.add(Violation("c03.valid-layout.read", f"valid-layout-raised:{type(e).__name__}:many-logical-items", f"{count} dates ({per_block} per block) raised {type(e).__name__}: {str(e)[:100]}", dict(info, mode="many-blocks")))
     res.distinct = n_cases
     res.sample({"many_blocks": "100 / 1000 / 3000 / 20000 one-item blocks; positive, sized, alternating; array and map; read and skipped"})
     return res
